@@ -32,6 +32,8 @@ impl Fix {
     fn instantiate(&self, ctx: InstantiateCtx, a: u64) -> Result<Response, Echo> { Err(Echo::H(0, a, ctx.env.block.height, 0)) }
     #[sv::msg(exec)]
     fn c_exec(&self, ctx: ExecCtx, a: u64) -> Result<Response, Echo> { Err(Echo::H(1, a, 0, ctx.env.block.height)) }
+    #[sv::msg(exec)]
+    fn step2(&self, _ctx: ExecCtx, amount: u64, who: u64) -> Result<Response, Echo> { Err(Echo::H(2, amount, who, 0)) }
 }
 
 impl iface::Iface for Fix {
@@ -62,6 +64,81 @@ pub mod generic {
         fn g_exec(&self, _ctx: ExecCtx, a: A, n: u64) -> Result<Response, Echo> { Err(Echo::H(31, a.into(), n, 0)) }
         #[sv::msg(sudo)]
         fn g_sudo(&self, _ctx: SudoCtx, b: Vec<Option<B>>) -> Result<Response, Echo> { Err(Echo::H(32, b.len() as u64, 0, 0)) }
+    }
+}
+
+
+pub mod rec {
+    //! Recording serializer: captures the serde data-model shape of an enum struct-variant.
+    use serde::ser::{self, Serialize, Impossible};
+    #[derive(Debug)]
+    pub struct E;
+    impl std::fmt::Display for E { fn fmt(&self, _f: &mut std::fmt::Formatter<'_>) -> std::fmt::Result { Ok(()) } }
+    impl std::error::Error for E {}
+    impl ser::Error for E { fn custom<T: std::fmt::Display>(_m: T) -> Self { E } }
+
+    #[derive(Default, Clone, Copy)]
+    pub struct Shape { pub variant: &'static str, pub nfields: usize, pub f0: &'static str, pub f1: &'static str, pub v0: u64, pub v1: u64 }
+
+    pub struct Rec;
+    pub struct SV { shape: Shape, i: usize }
+    pub struct U64Only;
+
+    macro_rules! no { ($($m:ident($t:ty)),*) => { $(fn $m(self, _v: $t) -> Result<Self::Ok, E> { Err(E) })* } }
+
+    impl ser::Serializer for U64Only {
+        type Ok = u64; type Error = E;
+        type SerializeSeq = Impossible<u64, E>; type SerializeTuple = Impossible<u64, E>; type SerializeTupleStruct = Impossible<u64, E>;
+        type SerializeTupleVariant = Impossible<u64, E>; type SerializeMap = Impossible<u64, E>; type SerializeStruct = Impossible<u64, E>; type SerializeStructVariant = Impossible<u64, E>;
+        fn serialize_u64(self, v: u64) -> Result<u64, E> { Ok(v) }
+        no!(serialize_bool(bool), serialize_i8(i8), serialize_i16(i16), serialize_i32(i32), serialize_i64(i64), serialize_u8(u8), serialize_u16(u16), serialize_u32(u32), serialize_f32(f32), serialize_f64(f64), serialize_char(char), serialize_str(&str), serialize_bytes(&[u8]));
+        fn serialize_none(self) -> Result<u64, E> { Err(E) }
+        fn serialize_some<T: ?Sized + Serialize>(self, _v: &T) -> Result<u64, E> { Err(E) }
+        fn serialize_unit(self) -> Result<u64, E> { Err(E) }
+        fn serialize_unit_struct(self, _n: &'static str) -> Result<u64, E> { Err(E) }
+        fn serialize_unit_variant(self, _n: &'static str, _i: u32, _v: &'static str) -> Result<u64, E> { Err(E) }
+        fn serialize_newtype_struct<T: ?Sized + Serialize>(self, _n: &'static str, _v: &T) -> Result<u64, E> { Err(E) }
+        fn serialize_newtype_variant<T: ?Sized + Serialize>(self, _n: &'static str, _i: u32, _var: &'static str, _v: &T) -> Result<u64, E> { Err(E) }
+        fn serialize_seq(self, _l: Option<usize>) -> Result<Self::SerializeSeq, E> { Err(E) }
+        fn serialize_tuple(self, _l: usize) -> Result<Self::SerializeTuple, E> { Err(E) }
+        fn serialize_tuple_struct(self, _n: &'static str, _l: usize) -> Result<Self::SerializeTupleStruct, E> { Err(E) }
+        fn serialize_tuple_variant(self, _n: &'static str, _i: u32, _v: &'static str, _l: usize) -> Result<Self::SerializeTupleVariant, E> { Err(E) }
+        fn serialize_map(self, _l: Option<usize>) -> Result<Self::SerializeMap, E> { Err(E) }
+        fn serialize_struct(self, _n: &'static str, _l: usize) -> Result<Self::SerializeStruct, E> { Err(E) }
+        fn serialize_struct_variant(self, _n: &'static str, _i: u32, _v: &'static str, _l: usize) -> Result<Self::SerializeStructVariant, E> { Err(E) }
+    }
+
+    impl ser::Serializer for Rec {
+        type Ok = Shape; type Error = E;
+        type SerializeSeq = Impossible<Shape, E>; type SerializeTuple = Impossible<Shape, E>; type SerializeTupleStruct = Impossible<Shape, E>;
+        type SerializeTupleVariant = Impossible<Shape, E>; type SerializeMap = Impossible<Shape, E>; type SerializeStruct = Impossible<Shape, E>; type SerializeStructVariant = SV;
+        no!(serialize_bool(bool), serialize_i8(i8), serialize_i16(i16), serialize_i32(i32), serialize_i64(i64), serialize_u8(u8), serialize_u16(u16), serialize_u32(u32), serialize_u64(u64), serialize_f32(f32), serialize_f64(f64), serialize_char(char), serialize_str(&str), serialize_bytes(&[u8]));
+        fn serialize_none(self) -> Result<Shape, E> { Err(E) }
+        fn serialize_some<T: ?Sized + Serialize>(self, _v: &T) -> Result<Shape, E> { Err(E) }
+        fn serialize_unit(self) -> Result<Shape, E> { Err(E) }
+        fn serialize_unit_struct(self, _n: &'static str) -> Result<Shape, E> { Err(E) }
+        fn serialize_unit_variant(self, _n: &'static str, _i: u32, _v: &'static str) -> Result<Shape, E> { Err(E) }
+        fn serialize_newtype_struct<T: ?Sized + Serialize>(self, _n: &'static str, _v: &T) -> Result<Shape, E> { Err(E) }
+        fn serialize_newtype_variant<T: ?Sized + Serialize>(self, _n: &'static str, _i: u32, _var: &'static str, v: &T) -> Result<Shape, E> { v.serialize(Rec) }
+        fn serialize_seq(self, _l: Option<usize>) -> Result<Self::SerializeSeq, E> { Err(E) }
+        fn serialize_tuple(self, _l: usize) -> Result<Self::SerializeTuple, E> { Err(E) }
+        fn serialize_tuple_struct(self, _n: &'static str, _l: usize) -> Result<Self::SerializeTupleStruct, E> { Err(E) }
+        fn serialize_tuple_variant(self, _n: &'static str, _i: u32, _v: &'static str, _l: usize) -> Result<Self::SerializeTupleVariant, E> { Err(E) }
+        fn serialize_map(self, _l: Option<usize>) -> Result<Self::SerializeMap, E> { Err(E) }
+        fn serialize_struct(self, _n: &'static str, _l: usize) -> Result<Self::SerializeStruct, E> { Err(E) }
+        fn serialize_struct_variant(self, _n: &'static str, _i: u32, v: &'static str, l: usize) -> Result<SV, E> {
+            Ok(SV { shape: Shape { variant: v, nfields: l, ..Default::default() }, i: 0 })
+        }
+    }
+    impl ser::SerializeStructVariant for SV {
+        type Ok = Shape; type Error = E;
+        fn serialize_field<T: ?Sized + Serialize>(&mut self, key: &'static str, value: &T) -> Result<(), E> {
+            let v = value.serialize(U64Only)?;
+            if self.i == 0 { self.shape.f0 = key; self.shape.v0 = v; } else { self.shape.f1 = key; self.shape.v1 = v; }
+            self.i += 1;
+            Ok(())
+        }
+        fn end(self) -> Result<Shape, E> { Ok(self.shape) }
     }
 }
 
@@ -123,6 +200,28 @@ mod proofs {
         // type-level obligations
         let _: fn(DepsMut, Env, sv::ContractSudoMsg) -> Result<Response, Echo> = entry_points::sudo;
         let _: fn(DepsMut, Env, MessageInfo, sv::InstantiateMsg) -> Result<Response, Echo> = entry_points::instantiate;
+    }
+
+
+    #[kani::proof]
+    #[kani::unwind(16)]
+    fn wire_shape_and_list() {
+        use serde::Serialize;
+        let x: u64 = kani::any(); let y: u64 = kani::any();
+        let m = sv::ExecMsg::Step2 { amount: x, who: y };
+        let sh = m.serialize(rec::Rec).unwrap();
+        assert!(sh.nfields == 2 && sh.f0 == "amount" && sh.f1 == "who" && sh.v0 == x && sh.v1 == y);
+        // transparent wrapper (untagged): same shape
+        let w: sv::ContractExecMsg = m.into();
+        let shw = w.serialize(rec::Rec).unwrap();
+        assert!(shw.variant == sh.variant && shw.v0 == x);
+        // C01: wire name is the method name
+        assert!(sh.variant == "step2");
+        // C05/C03: published list contains the wire name
+        let list = sv::execute_messages();
+        let mut found = false; let mut i = 0;
+        while i < list.len() { if list[i] == sh.variant { found = true; } i += 1; }
+        assert!(found);
     }
 
     #[kani::proof]
